@@ -69,6 +69,21 @@ def run(ctx):
         t = rng.choice(types)
         api = rng.choice(["file", "arr"])
         cases.append(Case(recs, t, threads=rng.choice([1, 2, 8, 16]), api=api, fmt=rng.choice(["fasta", "clu", "msf"])))
+    # large groups: both sides of the last merges hold hundreds of copies (gap penalties and match scores both scale with the product of the group
+    # sizes); the sequences with the smallest default margin: all-X / mostly-X proteins (s(X,X) = -1), all-N nucleotides, tgpe = 0 types
+    for j in range(4 if ctx.quick else 24):
+        kind = ["protein", "protein", "dna", "rna"][j % 4]
+        L = rng.choice([20, 40, 90])
+        if kind == "protein":
+            s_ = "X" * L if j % 8 < 4 else "".join("X" if rng.random() < 0.9 else rng.choice("ACDW") for _ in range(L))
+            t = rng.choice([3, 5])
+        else:
+            s_ = "N" * L if j % 8 < 4 else "".join("N" if rng.random() < 0.8 else rng.choice("ACG" + ("U" if kind == "rna" else "T")) for _ in range(L))
+            t = rng.choice([0, 1, 5]) if kind == "dna" else rng.choice([2, 5])
+        copies = rng.choice([300, 320, 400, 513])
+        recs = [("c%d" % k, s_) for k in range(copies)]
+        t = gen.fit_type(t, kind, recs)
+        cases.append(Case(recs, t, threads=rng.choice([1, 8]), api="file", fmt="fasta", tag="large group"))
     sysrun.run_cases(kvh, cases, timeout=1800)
     fails = []
     for c in cases:
